@@ -7,8 +7,11 @@ from concurrent.futures import ThreadPoolExecutor
 V = '/verif'
 args = sys.argv[1:]
 J = 4
+OWN = False
 if args[:1] == ['-j']:
     J = int(args[1]); args = args[2:]
+if args[:1] == ['--own']:
+    OWN = True; args = args[1:]      # only the check of the seed's own property, and only seeds without a result yet
 seeds = args or sorted(d for d in os.listdir(V + '/seeded') if os.path.isdir(V + '/seeded/' + d))
 man = json.load(open(V + '/MANIFEST.json'))
 claimed = [c['property_id'] for c in man['checks']]
@@ -20,6 +23,8 @@ except Exception:
 lock = threading.Lock()
 q = queue.Queue()
 for s in seeds:
+    if OWN and s in res and res[s].get('applies'):
+        continue
     q.put(s)
 
 
@@ -61,13 +66,13 @@ def worker(i):
             if keys0:
                 caught[pid0] = keys0
             with ThreadPoolExecutor(max_workers=5) as ex:
-                for pid, keys in ex.map(one, [p for p in claimed if p not in order]):
+                for pid, keys in ex.map(one, [] if OWN else [p for p in claimed if p not in order]):
                     if keys:
                         caught[pid] = keys
             sh('git', '-C', wt, 'checkout', '-q', '--', '.')
             sh('git', '-C', wt, 'clean', '-fdq')
             with lock:
-                res[s] = {'property': meta['property'], 'applies': True, 'caught_by': caught, 'caught_by_own_property': meta['property'] in caught}
+                res[s] = {'property': meta['property'], 'applies': True, 'caught_by': caught, 'caught_by_own_property': meta['property'] in caught, 'own_only': OWN}
                 print(s, 'caught by', caught if caught else 'NOTHING', flush=True)
                 json.dump(res, open(V + '/seeded/RESULTS.json', 'w'), indent=1)
     finally:
